@@ -28,6 +28,7 @@ type Obligation struct {
 	Inline bool  // generated inside an inlined callee
 	Agree  int   // thorough tier: number of solvers that answered unsat
 	Ante   *Term // antecedent of an implication-shaped goal (for the vacuity cover)
+	Root   *ssa.Function // the function under verification (witness replay calls it)
 	// results
 	Status string // unsat (discharged) | sat | unknown | timeout
 	Solver string
@@ -261,7 +262,7 @@ func (ex *Exec) oblige(f *frame, st *State, kind, detail, label string, pos toke
 		name = fmt.Sprintf("%s~%d", base, ex.counts[base])
 	}
 	o := &Obligation{Name: name, Fn: fnName, Kind: kind, Label: label, Desc: desc,
-		N: len(ex.sc.asserts), Hyp: st.reach, Goal: goal, Script: ex.sc, Inline: f.inline}
+		N: len(ex.sc.asserts), Hyp: st.reach, Goal: goal, Script: ex.sc, Inline: f.inline, Root: ex.root}
 	if pos.IsValid() {
 		p := ex.V.P.Fset.Position(pos)
 		o.Pos = fmt.Sprintf("%s:%d", shortPos(p.Filename), p.Line)
@@ -764,6 +765,9 @@ func (ex *Exec) runBody(f *frame, entry *State, params []Term) {
 			}
 			switch x := ins.(type) {
 			case *ssa.Return:
+				if f.contract != nil && !f.inline && len(f.contract.Sites) > 0 {
+					ex.siteAsserts(f, st, b, ins)
+				}
 				var vs []Term
 				for _, r := range x.Results {
 					vs = append(vs, f.val(r))
@@ -879,7 +883,7 @@ func (ex *Exec) runBody(f *frame, entry *State, params []Term) {
 // siteAsserts: obligations attached (by source text) before an instruction.
 func (ex *Exec) siteAsserts(f *frame, st *State, b *ssa.BasicBlock, ins ssa.Instruction) {
 	switch ins.(type) {
-	case *ssa.Call, *ssa.MapUpdate, *ssa.Go, *ssa.Defer:
+	case *ssa.Call, *ssa.MapUpdate, *ssa.Go, *ssa.Defer, *ssa.Return:
 	default:
 		return
 	}
